@@ -33,60 +33,41 @@ func NewResolver(db shared.DBNodeMap, c Config) Resolver {
 // Resolve resolves the current database
 // Deprecated: Deprecated in favor of using Resolve function directly
 func (r Resolver) Resolve() error {
-	var err error
-	for name := range r.db {
-		if err = r.resolveNode(name, 0); err != nil {
-			return err
-		}
-	}
-	return nil
+	_, err := Resolve(r.config, r.db)
+	return err
 }
 
-func (r Resolver) resolveNode(name string, level int) error {
-	if level >= r.config.MaxDepth {
-		return fmt.Errorf("maximum resolution depth reached")
-	}
-
-	node, exists := r.db[name]
-	if !exists {
-		return nil
-	}
-
-	nel := shared.NewElements()
-
-	for _, e := range node.Elements {
-		if err := r.resolveNode(e.Name, level+1); err != nil {
-			return err
-		}
-		foundNode, exists := r.db[e.Name]
-		if exists {
-			nel.SumMerge(foundNode.Elements, e.Value)
-		} else {
-			var tm shared.Elements
-			tm.Add(e.Name, e.Value)
-			nel.SumMerge(tm, 1)
-		}
-	}
-	nel.Sort()
-	r.db[name].Elements = nel
-	return nil
-}
-
-func resolveNode(maxDepth int, db shared.DBNodeMap, name string, level int) error {
+// resolveNode resolves the named recipe in place and returns the length of the
+// longest chain of ingredient references that starts at it. The lengths of the
+// recipes resolved so far are kept in heights, so that the depth check gives the
+// same answer whether a recipe is reached before or after it was resolved in place
+func resolveNode(maxDepth int, db shared.DBNodeMap, heights map[string]int, name string, level int) (int, error) {
 	if level >= maxDepth {
-		return fmt.Errorf("maximum resolution depth reached")
+		return 0, fmt.Errorf("maximum resolution depth reached")
 	}
 
 	node, exists := db[name]
 	if !exists {
-		return nil
+		return 0, nil
+	}
+
+	if height, resolved := heights[name]; resolved {
+		if level+height >= maxDepth {
+			return 0, fmt.Errorf("maximum resolution depth reached")
+		}
+		return height, nil
 	}
 
 	nel := shared.NewElements()
+	height := 0
 
 	for _, e := range node.Elements {
-		if err := resolveNode(maxDepth, db, e.Name, level+1); err != nil {
-			return err
+		h, err := resolveNode(maxDepth, db, heights, e.Name, level+1)
+		if err != nil {
+			return 0, err
+		}
+		if h+1 > height {
+			height = h + 1
 		}
 		if foundNode, exists := db[e.Name]; exists {
 			nel.SumMerge(foundNode.Elements, e.Value)
@@ -98,12 +79,14 @@ func resolveNode(maxDepth int, db shared.DBNodeMap, name string, level int) erro
 	}
 	nel.Sort()
 	db[name].Elements = nel
-	return nil
+	heights[name] = height
+	return height, nil
 }
 
 func Resolve(c Config, db shared.DBNodeMap) (shared.DBNodeMap, error) {
+	heights := make(map[string]int, len(db))
 	for name := range db {
-		if err := resolveNode(c.MaxDepth, db, name, 0); err != nil {
+		if _, err := resolveNode(c.MaxDepth, db, heights, name, 0); err != nil {
 			return db, err
 		}
 	}
